@@ -70,9 +70,9 @@ def iterate {n} (P : Params Float) (C : Mat Float n) (k : Nat) : Json :=
     match sweepsN P.sqrt P.log C Crs k st0 with
     | .error e => errJson (errStr e)
     | .ok st =>
-      let T : Mat Float n := Vector.ofFn fun i => Vector.ofFn fun j => st.X.get i j / rowSumF st.X i
-      let tot := sumFin n (fun i => st.rs.get i)
-      let pi : Vec Float n := Vector.ofFn fun i => st.rs.get i / tot
+      let T : Mat Float n := Vector.ofFn fun i => Vector.ofFn fun j => mget st.X i j / rowSumF st.X i
+      let tot := sumFin n (fun i => vget st.rs i)
+      let pi : Vec Float n := Vector.ofFn fun i => vget st.rs i / tot
       okJson (Json.mkObj [("T", matJson T), ("pi", vecJson pi)])
 
 def handle (op : String) (req : Json) : Except String Json := do
